@@ -1,5 +1,6 @@
 import TxV.Drv.Common
 import TxV.Model.Onion
+import TxV.Model.Ports
 import TxV.Spec.AddOnion
 /-
 Driver for C14.
@@ -7,6 +8,7 @@ Driver for C14.
   parse <hex>                                                                            → parsed fields | none
   after <same request words> <sid hex|none> <pk hex|none> <ca n.b,…|->                    → service fields | none
   del <hostname hex>
+  ports <free n,n|-> <local ips hex,hex|-> <b<pub> | p<pub>.<local> | t<pub>.<hex> | r<hex>>…   → some v.t,… (as `cmd` takes them) | none
 Inside lists `n.b`: hex fields; `-` for "no blob".
 -/
 namespace TxV.Drv.C14
@@ -49,8 +51,31 @@ def encOpt (o : Option (List Char)) : String :=
 def encPairs (ps : List (List Char × Option (List Char))) : String :=
   if ps.isEmpty then "-" else ",".intercalate (ps.map fun p => Hex.encText p.1 ++ "." ++ encOpt p.2)
 
+def decSpec (w : String) : Option TxV.Ports.Spec :=
+  match w.toList with
+  | 'b' :: r => (String.ofList r).toNat?.map .bare
+  | 'p' :: r => match (String.ofList r).splitOn "." with
+    | [a, b] => do pure (.pair (← a.toNat?) (.port (← b.toNat?)))
+    | _ => none
+  | 't' :: r => match (String.ofList r).splitOn "." with
+    | [a, b] => do pure (.pair (← a.toNat?) (.text (← decText b)))
+    | _ => none
+  | 'r' :: r => (decText (String.ofList r)).map .ready
+  | _ => none
+
 def step (_ : Unit) (line : String) : Unit × String :=
   match words line with
+  | "ports" :: free :: locals :: specs =>
+    let fr : Option (List Nat) := if free = "-" then some [] else (free.splitOn ",").mapM (·.toNat?)
+    let ls : Option (List (List Char)) := if locals = "-" then some [] else (locals.splitOn ",").mapM decText
+    match fr, ls, specs.mapM decSpec with
+    | some fr, some ls, some sp =>
+      match TxV.Ports.validateAll (fun ip => ip ∈ ls) fr sp with
+      | some out => ((), "some " ++ (if out.isEmpty then "-" else ",".intercalate (out.map fun t =>
+          let vt := TxV.Ports.virtTarget t
+          Hex.encText vt.1 ++ "." ++ Hex.encText vt.2)))
+      | none => ((), "none")
+    | _, _, _ => ((), "bad-op")
   | "cmd" :: rest =>
     match decReq rest with
     | some r => ((), match addOnionCmd r with
